@@ -33,6 +33,9 @@ type c12PathCase struct {
 	Path      string `json:"path"`
 	Value     string `json:"value"`
 	Companion bool   `json:"companion"` // blob paths: add a WORKFLOW_EXECUTION_STARTED event to the same batch
+	// Repairable: blob paths: the batch also holds a failed-activity event whose failure message contains an invalid
+	// UTF-8 byte, so the blob must be repaired before it can be walked; the name must still be translated
+	Repairable bool `json:"repairable,omitempty"`
 }
 
 func c12Enum(r vfRoot, unclassified *[]string) []vfshared.Path {
@@ -100,9 +103,15 @@ func c12AddCompanion(m protoreflect.Message) {
 // c12Check runs one (method, request, response) through the real interceptor and the reference.
 // reqMap is the request-direction mapping; responses use its inverse.
 func c12Check(m vfshared.Method, req, resp proto.Message, reqMap map[string]string) error {
+	return c12CheckRef(m, req, resp, req, resp, reqMap)
+}
+
+// c12CheckRef: refReq/refResp are what the reference translates (they differ from req/resp only where the proxy is
+// expected to repair the input first).
+func c12CheckRef(m vfshared.Method, req, resp, refReq, refResp proto.Message, reqMap map[string]string) error {
 	respMap := vfInvert(reqMap)
 	ti := NewTranslationInterceptor(vfNoopLogger(), []Translator{NewNamespaceNameTranslator(vfNoopLogger(), reqMap, respMap)})
-	wantReq, wantResp := proto.Clone(req), proto.Clone(resp)
+	wantReq, wantResp := proto.Clone(refReq), proto.Clone(refResp)
 	rr := &vfshared.RefTranslator{NS: reqMap}
 	if _, err := rr.Translate(wantReq.ProtoReflect()); err != nil {
 		return fmt.Errorf("HARNESS: reference failed on request: %v", err)
@@ -126,6 +135,9 @@ func c12Check(m vfshared.Method, req, resp proto.Message, reqMap map[string]stri
 	return nil
 }
 
+// errNotLegacy: the repairable variant does not apply (the batch holds fields an older server could not have written)
+var errNotLegacy = fmt.Errorf("not representable in the legacy schema")
+
 func c12RunPathCase(c c12PathCase) (vfshared.Path, error) {
 	m, ok := vfFindMethod(c.Method)
 	if !ok {
@@ -140,20 +152,28 @@ func c12RunPathCase(c c12PathCase) (vfshared.Path, error) {
 			continue
 		}
 		msg := c12BuildPath(p, c.Value, c.Companion)
+		ref := msg
+		if c.Repairable {
+			var n int
+			if msg, ref, n = vfMakeRepairable(msg); n == 0 {
+				return p, errNotLegacy
+			}
+		}
 		req, resp := vfshared.NewMessage(m.In), vfshared.NewMessage(m.Out)
+		refReq, refResp := req, resp
 		reqMap := c12Mapping
 		if c.Side == "request" {
-			req = msg
+			req, refReq = msg, ref
 		} else {
-			resp = msg
+			resp, refResp = msg, ref
 			reqMap = vfInvert(c12Mapping) // so that the response direction maps c.Value
 		}
-		return p, c12Check(m, req, resp, reqMap)
+		return p, c12CheckRef(m, req, resp, refReq, refResp, reqMap)
 	}
 	return vfshared.Path{}, fmt.Errorf("HARNESS: path %q no longer exists under %s %s", c.Path, c.Method, c.Side)
 }
 
-const c12PathRule = "every structural path (protobuf descriptors; each message type at most R times per path, Failure R+1; through event blobs into every HistoryEvent type) from every request/response/stream message of WorkflowService and AdminService to a namespace-name field; one minimal message per path holding a mapped name, alone and with a namespace-free companion event in the same batch; real TranslationInterceptor vs independent reference translator; non-trivial = path length>=3 or through oneof/repeated/map/blob or failure depth>=2; distinct = (method, side, path, companion)"
+const c12PathRule = "every structural path (protobuf descriptors; each message type at most R times per path, Failure R+1; through event blobs into every HistoryEvent type) from every request/response/stream message of WorkflowService and AdminService to a namespace-name field; one minimal message per path holding a mapped name, alone, with a namespace-free companion event in the same batch, and with a failed-activity event whose failure message holds invalid UTF-8 in the same batch (the blob has to be repaired before it can be walked); real TranslationInterceptor vs independent reference translator; non-trivial = path length>=3 or through oneof/repeated/map/blob or failure depth>=2; distinct = (method, side, path, companion)"
 
 func TestVF_C12_Paths(t *testing.T) {
 	const part = "paths"
@@ -169,7 +189,7 @@ func TestVF_C12_Paths(t *testing.T) {
 		}
 		_, err := c12RunPathCase(c)
 		st.Case(vfshared.Fingerprint(c), true)
-		if err != nil {
+		if err != nil && err != errNotLegacy {
 			c12Fail(t, st, part, c, err)
 		}
 		return
@@ -186,19 +206,27 @@ func TestVF_C12_Paths(t *testing.T) {
 		paths := c12Enum(r, &unclassified)
 		for _, p := range paths {
 			_, _, _, _, viaBlob, _ := p.Features()
-			for _, companion := range []bool{false, true} {
-				if companion && !viaBlob {
+			for _, variant := range []int{0, 1, 2, 3} {
+				companion, repairable := variant&1 == 1, variant&2 == 2
+				if variant != 0 && !viaBlob {
 					continue
 				}
 				idx++
 				if idx%nshards != shard {
 					continue
 				}
-				c := c12PathCase{Method: r.M.FullMethod, Side: r.Side, Path: p.String(), Value: "ns-local", Companion: companion}
+				c := c12PathCase{Method: r.M.FullMethod, Side: r.Side, Path: p.String(), Value: "ns-local", Companion: companion, Repairable: repairable}
 				_, err := c12RunPathCase(c)
+				if err == errNotLegacy {
+					st.Class("repairable_variant_skipped_not_in_legacy_schema", 1)
+					continue
+				}
 				length, viaOneof, viaRep, viaMap, viaBlob, fdepth := p.Features()
 				nontrivial := length >= 3 || viaOneof || viaRep || viaMap || viaBlob || fdepth >= 2
 				var cl []string
+				if repairable {
+					cl = append(cl, "blob_needs_utf8_repair_first")
+				}
 				if viaBlob {
 					cl = append(cl, "via_blob")
 					for i, s := range p.Steps {
